@@ -47,6 +47,22 @@ def enc_str(width, s, full_ok=False):
     return b + b"\x00" * (width - len(b))
 
 
+class AnyText(str):
+    """Text of a field that holds a byte windows-1252 does not define (0x81 0x8d 0x8f 0x90
+    0x9d): no reading of it is more right than another, so it compares equal to anything."""
+
+    def __eq__(self, other):
+        return True
+
+    def __ne__(self, other):
+        return False
+
+    __hash__ = str.__hash__
+
+
+UNDEFINED_CP1252 = (0x81, 0x8D, 0x8F, 0x90, 0x9D)
+
+
 class Rd:
     """Cursor over bytes that records don't-care ranges and strictness failures."""
 
@@ -84,7 +100,7 @@ class Rd:
         if any(b):
             self.noncanon.append(("pad", s))
 
-    def string(self, width):
+    def string(self, width, lenient=False):
         s = self.p
         b = self.take(width)
         z = b.find(b"\x00")
@@ -100,6 +116,8 @@ class Rd:
         try:
             return txt.decode("cp1252")
         except UnicodeDecodeError:
+            if lenient:
+                return AnyText(txt.decode("cp1252", "replace"))
             raise LayoutError(f"text field at {self.base + s} is not cp1252")
 
 
@@ -446,10 +464,10 @@ class Image:
             off, size = r.i32(), r.i32()
             cd, md, ad = r.i32(), r.i32(), r.i32()
             r.pad(4)
-            com = r.string(256)
+            com = r.string(256, lenient=True)
             self.entries.append({"i": i, "type": code, "fmt": fmt, "offset": off, "size": size,
                                  "cdate": cd, "mdate": md, "adate": ad, "comment": com,
-                                 "noncanon": r.noncanon})
+                                 "badtext": isinstance(com, AnyText), "noncanon": r.noncanon})
             self.dc.extend(r.dc)
 
     def live(self):
